@@ -422,8 +422,8 @@ def agree_model(rng, quick):
     """a model inside MJX's feature set on which agreement with C is expected: analytic colliders (plane, sphere, capsule),
     solver tolerance tightened on both sides.  The confirmed findings (each exercised by its own directed case in
     run_directed) are kept out of this generic comparison so that it keeps its sensitivity to everything else:
-    implicitfast with free joints, elliptic cone without frictional contacts, connect/weld equalities, bodies attached to
-    a mocap body, models without degrees of freedom."""
+    implicitfast with free joints or force-limited actuators, elliptic cone without frictional contacts, connect/weld equalities, bodies attached to
+    a mocap body, colliding geoms on mocap bodies, models without degrees of freedom."""
     for _ in range(20):
         contacts = rng.choice((0.0, 1.0, 1.0))
         over = {"geom_types": ("sphere", "capsule"), "contacts": contacts, "nbody": (1, 4), "plane": 0.8 if contacts else 0.3,
@@ -448,9 +448,17 @@ def agree_model(rng, quick):
     parents = {l.split()[2] for l in mdl.lines if l.startswith("body ")}
     mdl.lines = [l for l in mdl.lines if not (l.split()[0] == "set" and l.split()[2:] == ["mocap", "1"] and l.split()[1] in parents)]
     nmocap = sum(1 for l in mdl.lines if l.split()[0] == "set" and l.split()[2:] == ["mocap", "1"])
+    # geoms of mocap bodies do not collide (MJX lists contacts between a mocap body and the world, the C engine filters them)
+    mocap_h = {l.split()[1] for l in mdl.lines if l.split()[0] == "set" and l.split()[2:] == ["mocap", "1"]}
+    for l in list(mdl.lines):
+        w = l.split()
+        if w[0] == "geom" and w[2] in mocap_h:
+            mdl.lines += ["set %s contype 0" % w[1], "set %s conaffinity 0" % w[1]]
     if nmocap != mdl.nmocap:
         mdl.nmocap = nmocap
     fix = {}
+    if mdl.options["integrator"] == "implicitfast" and any(l.split()[2:3] == ["forcelimited"] for l in mdl.lines):
+        fix["integrator"] = E("mjINT_" + rng.choice(("EULER", "RK4")))
     if mdl.options["integrator"] == "implicitfast" and has_free:
         fix["integrator"] = E("mjINT_" + rng.choice(("EULER", "RK4")))
     if mdl.options["cone"] == "elliptic" and not (contacts and has_plane):
@@ -699,7 +707,8 @@ def run_directed(ctx, pair, orc):
         pair.c.ask("forward 0")
         pair.h.ask("forward", timeout=900)
         c = sorted(pair.cnum("efc_aref") or [])
-        m = sorted(json.loads(pair.h.ask("out efc"))["efc"]["aref"])
+        raw = json.loads(pair.h.ask("out efc_aref efc_type"))
+        m = sorted(a for a, t in zip(raw["efc_aref"], raw["efc_type"]) if int(t) == E("mjCNSTR_EQUALITY"))
         d = reldev(c, m) if len(c) == len(m) and c else float("inf")
         out.append({"case": "connect equality, joint velocities (2,-3)", "sorted_efc_aref_c": c, "sorted_efc_aref_mjx": m})
         if not d <= TOL_PIPE:
@@ -725,6 +734,45 @@ def run_directed(ctx, pair, orc):
                      "a body attached to a mocap body: with mocap_pos=(1,2,3) and a 90 degree mocap_quat the child is at %s in C and at %s in MJX "
                      "(smooth.kinematics sets xpos/xquat of the mocap body after the tree scan, so its children are placed from the model pose)" % (c[6:9], m[6:9]),
                      {"model_description": L, "state": st, "xpos_c": c, "xpos_mjx": m})
+    # 8. a mocap body whose geom penetrates a world geom: MJX keeps the (static, static) pair, its rows have J = 0 and D = 1/mjMINVAL
+    L = ["option tolerance 1e-14", "geom 1 0", "set 1 type 0", "set 1 size 5 5 0.1", "body 2 0", "set 2 mocap 1", "set 2 pos 0 0 -0.15", "geom 3 2",
+         "set 3 size 0.2", "body 4 0", "set 4 pos 1 0 0.09", "joint 5 4", "set 5 type %d" % E("mjJNT_SLIDE"), "set 5 axis 0 0 1", "geom 6 4",
+         "set 6 size 0.1"]
+    co, ho = pair.load(L)
+    orc.n += 1
+    if pair.c_ok and ho.startswith("ok"):
+        pair.set_state({})
+        pair.c.ask("forward 0")
+        r = pair.h.ask("forward", timeout=900)
+        c, m = pair.cnum("qacc"), (json.loads(pair.h.ask("out qacc"))["qacc"] if r == "ok" else None)
+        out.append({"case": "mocap sphere deep in the floor + a sphere on a vertical slide resting on the floor", "qacc_c": c, "qacc_mjx": m})
+        if m is None or not reldev(c, m) <= TOL_CONTACT:
+            orc.fail("c43:mocap-world-contact-poisons-solver",
+                     "a mocap body's sphere penetrates the floor plane by 0.35 while a sphere on a vertical slide joint rests on the floor (penetration 0.01): "
+                     "C gives qacc = %s (the contact pushes back), MJX %s (free fall). collision_driver.geom_pairs keeps (world, mocap body) pairs "
+                     "(their body_weldid differ) which the C engine filters as static-static; their contact rows have a zero Jacobian and D = 1/mjMINVAL, "
+                     "a constant ~1e20 in the solver's cost that wipes out the precision of its termination and warm-start tests" % (c, m),
+                     {"model_description": L, "qacc_c": c, "qacc_mjx": m})
+    # 9. implicitfast: the C derivative skips an actuator whose force is clamped by forcerange, MJX's does not
+    L = ["option integrator %d" % E("mjINT_IMPLICITFAST"), "option gravity 0 0 0", "body 2 0", "joint 3 2", "name 3 j", "set 3 axis 0 1 0", "geom 4 2",
+         "set 4 size 0.1", "set 4 pos 0.3 0 0", "set 4 contype 0", "set 4 conaffinity 0", "actuator 5", "set 5 trntype %d" % E("mjTRN_JOINT"),
+         "set 5 target j", "set 5 gainprm 5", "set 5 biastype %d" % E("mjBIAS_AFFINE"), "set 5 biasprm 0 0 -5", "set 5 forcelimited 1",
+         "set 5 forcerange -0.5 0.5"]
+    co, ho = pair.load(L)
+    orc.n += 1
+    if pair.c_ok and ho.startswith("ok"):
+        st = {"qvel": [2.0]}
+        pair.set_state(st)
+        pair.c.ask("step 0 1")
+        pair.h.ask("step 1", timeout=900)
+        c, m = pair.cnum("qvel"), json.loads(pair.h.ask("out qvel"))["qvel"]
+        d = reldev(c, m)
+        out.append({"case": "implicitfast, velocity servo saturated at its forcerange", "qvel_c": c, "qvel_mjx": m, "relative_deviation": d})
+        if not d <= TOL_PIPE:
+            orc.fail("c43:implicitfast-ignores-force-clamp",
+                     "implicitfast, a velocity servo (kv = 5) saturated at forcerange +-0.5 on a hinge moving at 2 rad/s: after one step qvel = %s in C, "
+                     "%s in MJX (relative %.3g): mjd_actuator_vel skips actuators whose force is clamped, derivative.deriv_smooth_vel does not" % (c, m, d),
+                     {"model_description": L, "state": st, "qvel_c": c, "qvel_mjx": m})
     # 7. a model without any degree of freedom
     L = ["geom 1 0", "set 1 type 0", "set 1 size 5 5 0.1", "body 2 0", "set 2 pos 0 0 1", "geom 3 2", "set 3 size 0.1"]
     co, ho = pair.load(L)
